@@ -1,10 +1,15 @@
 """Drive the real wsgi.input (gunicorn.http.body.Body) with an application program: a sequence
 of read(n) / readline(n) / readlines(hint) / next() calls; then ask the parser for the next
 request and record where its parse started."""
+import os
+import sys
+
+if __name__ == "__main__":          # batch mode (see _batch): started as a script
+    sys.path.insert(0, os.path.dirname(os.path.dirname(os.path.abspath(__file__))))
+from drivers.http_parse import Source, FakeSock, TlsSock, make_cfg       # (puts the tree under test on sys.path)
+
 from gunicorn.http.parser import RequestParser
 from gunicorn.http.message import Request
-
-from drivers.http_parse import Source, FakeSock, TlsSock, make_cfg
 
 
 def make_body(rng, blen, nlstyle):
@@ -112,3 +117,21 @@ def run_program(stream, cuts, program, body, source="iter", cfgkw=None, follower
         nstart = -2
     ev.append({"e": "stop", "next_start": nstart, "expect_next": expect})
     return ev
+
+
+def _batch():
+    """jobs on stdin (JSON list of dicts with latin-1 strings), results on stdout: the same runs in another interpreter
+    process -- used to repeat a share of the runs under `python -O` (PYTHONOPTIMIZE deployments)"""
+    import json
+    import sys
+    jobs = json.load(sys.stdin)
+    out = []
+    for j in jobs:
+        fol = j["follower"].encode("latin-1") if j.get("follower") else None
+        out.append(run_program(j["stream"].encode("latin-1"), j["cuts"], [tuple(x) for x in j["prog"]], j["body"].encode("latin-1"),
+                               source=j["source"], cfgkw=j.get("cfgkw"), follower=fol))
+    json.dump({"optimized": not __debug__, "results": out}, sys.stdout)
+
+
+if __name__ == "__main__":
+    _batch()
